@@ -42,7 +42,9 @@ POINTS = [
     (5.3, [1.15, 0.7, 1.45, 0.6]),
     (1.13, [0.34, 2.4, 1.75, 0.95]),
 ]
-LEAVES = [("x",), ("a", 0), ("a", 1), ("a", 2), ("num", "1"), ("num", "2"), ("num", "3"), ("num", "1.5"), ("num", "0.25")]
+# the last two numbers have unusual magnitudes: a constant far below 1e-8 and a large non-integer (a conversion that compares numbers with a fixed absolute or a loose
+# relative tolerance drops the first and rounds the second)
+LEAVES = [("x",), ("a", 0), ("a", 1), ("a", 2), ("num", "1"), ("num", "2"), ("num", "3"), ("num", "1.5"), ("num", "0.25"), ("num", "5e-09"), ("num", "1234567.25")]
 LEAVES_SMALL = [("x",), ("a", 0), ("num", "2"), ("num", "1.5")]
 IPOW_EXPS = ["2", "3", "-1", "-2", "0.5"]
 INFIX = ["+", "-", "*", "/"]
